@@ -25,7 +25,8 @@ LEVEL_TEXT = ("Sequences of 1-8 outbound messages over {typed request/notificati
               " Also sequences of 100-1000 messages, and two writers on stdin: 64 KiB-1.1 MiB messages in flight to a slowly draining child while inbound batches are answered with rejections (every stdin line must be whole JSON)."
               ' Also messages sent right before the context is left, pretty-printed and newline-terminated strings, directly instantiated envelopes; stdin EOF is judged while the client context is still open.'
               ' Also typed messages whose payload holds a value without a JSON image (arbitrary object, undecodable bytes), under both backends.'
-              ' Also typed envelope messages carrying extra members (trace context, vendor extension).')
+              ' Also typed envelope messages carrying extra members (trace context, vendor extension).'
+              ' Also typed and plain messages nested 200-600 levels, and payloads in which one container object is referenced from several places.')
 LEVEL_NOTE = ("Trusted: ScriptedProcess.stdin byte capture (thorough adds a real cat-like child and a real pipe); expected "
               "value of a typed message = its wire dict with None-valued top-level optionals omitted.")
 RULE = ("case = sequence of message specs. Non-trivial: >=2 messages or a payload with a separator character or an "
